@@ -85,6 +85,15 @@ def run(tier):
         lk = [b"key-%c" % (97 + i) for i in range(nk)]
         ncases = [dict(make_case(mergerun.tables_from_beh(b, nk), nk), cmp="nocase") for b in behs[:(3000 if thorough else 150)]]
         batches.append(("nocase-k%d" % nk, lk, concrete.value_family(concrete.VALUE_FAMILIES[0], ["v1", "v2", "v3", "v4"], rng), ncases))
+    # C09 through a stack: one member's data file damaged (a byte of every value), all members verifying every read - the stacked Get answers
+    # with an error or the newest value as written, never with an older table's value
+    nk3, behs3 = chosen[0]
+    dcases = []
+    for ci, b in enumerate(behs3[:(1500 if thorough else 240)]):
+        tabs = mergerun.tables_from_beh(b, nk3)
+        if len(tabs) >= 2 and any(tabs):
+            dcases.append({"tables": tabs, "probes": list(range(nk3)), "ranges": [], "faults": [], "super": True, "loader": LOADERS[ci % len(LOADERS)], "damage": ci % len(tabs)})
+    batches.append(("damage-under-stack", concrete.key_family("be4", nk3, rng), concrete.value_family(concrete.VALUE_FAMILIES[0], ["v1", "v2", "v3", "v4"], rng), dcases))
     # seeded bigger lists
     nbig = 30 if thorough else 9
     for i in range(nbig):
